@@ -308,5 +308,85 @@ func c04Direct(c *core.Ctx) {
 			}
 		}
 	}
+	// ---- 4. SortByIndex: the index comparator addresses the elements as they are being sorted, whichever way it reads them
+	// (through the receiver's Get, through the receiver's slice, through a slice header taken before the call)
+	for _, l := range [][]int{{5, 3, 9, 1, 7, 2, 8}, {2, 1}, {3, 1, 2}, {9, 8, 7, 6, 5, 4, 3, 2, 1, 0, 11, 10}, {1, 2, 3}} {
+		want := append([]int(nil), l...)
+		sort.Ints(want)
+		for _, how := range []string{"receiver.Get(i)", "(*receiver)[i]", "a slice header of the receiver taken before the call"} {
+			c.Eval(1)
+			c.DistinctAdd(1)
+			sg := fpgo.StreamFromArray(append([]int(nil), l...))
+			view := *sg
+			var cmp func(i, j int) bool
+			switch how {
+			case "receiver.Get(i)":
+				cmp = func(i, j int) bool { return sg.Get(i) < sg.Get(j) }
+			case "(*receiver)[i]":
+				cmp = func(i, j int) bool { return (*sg)[i] < (*sg)[j] }
+			default:
+				cmp = func(i, j int) bool { return view[i] < view[j] }
+			}
+			var got []int
+			pv, where := core.Catch(func() { got = sg.SortByIndex(cmp).ToArray() })
+			if pv != nil {
+				c.Violationf("direct:generic:SortByIndex:panic", map[string]any{"list": fmt.Sprint(l), "comparator": how}, "generic SortByIndex on %v with a comparator reading %s panics: %v at %s", l, how, pv, where)
+			} else if !eqSeq(got, want) {
+				c.Violationf("direct:generic:SortByIndex:not-sorted", map[string]any{"list": fmt.Sprint(l), "comparator": how}, "generic stream %v: SortByIndex with a comparator reading %s returns %v, want %v", l, how, got, want)
+			}
+			si := fpgo.StreamForInterface.FromArray(toAny(l))
+			viewI := *si
+			var cmpI func(i, j int) bool
+			switch how {
+			case "receiver.Get(i)":
+				cmpI = func(i, j int) bool { return si.Get(i).(int) < si.Get(j).(int) }
+			case "(*receiver)[i]":
+				cmpI = func(i, j int) bool { return (*si)[i].(int) < (*si)[j].(int) }
+			default:
+				cmpI = func(i, j int) bool { return viewI[i].(int) < viewI[j].(int) }
+			}
+			var gotI []int
+			pv, where = core.Catch(func() { gotI = fromAny(si.SortByIndex(cmpI).ToArray()) })
+			if pv != nil {
+				c.Violationf("direct:interface{}:SortByIndex:panic", map[string]any{"list": fmt.Sprint(l), "comparator": how}, "interface{} SortByIndex on %v with a comparator reading %s panics: %v at %s", l, how, pv, where)
+			} else if !eqSeq(gotI, want) {
+				c.Violationf("direct:interface{}:SortByIndex:not-sorted", map[string]any{"list": fmt.Sprint(l), "comparator": how}, "interface{} stream %v: SortByIndex with a comparator reading %s returns %v, want %v", l, how, gotI, want)
+			}
+		}
+	}
+	// ---- 5. elements that are themselves slices (rows): an element is an element, however many arguments there are
+	{
+		rowA, rowB, rowC, empty := []interface{}{"alice", 1}, []interface{}{"bob", 2}, []interface{}{"carol", 3}, []interface{}{}
+		type tc struct {
+			name string
+			s    *fpgo.StreamForInterfaceDef
+			n    int
+		}
+		base := fpgo.StreamForInterface.From(rowA, rowB)
+		cases := []tc{
+			{"From(row)", fpgo.StreamForInterface.From(rowA), 1},
+			{"From(emptyRow)", fpgo.StreamForInterface.From(empty), 1},
+			{"From(rowA, rowB)", base, 2},
+			{"From(rowA, rowB).Append(rowC)", base.Append(rowC), 3},
+			{"From(rowA, rowB).Append(rowC, rowA)", base.Append(rowC, rowA), 4},
+			{"From(rowA, rowB).Append(emptyRow)", base.Append(empty), 3},
+			{"From().Append(rowA)", fpgo.StreamForInterface.From().Append(rowA), 1},
+			{"FromArray([]interface{}{rowA})", fpgo.StreamForInterface.FromArray([]interface{}{rowA}), 1},
+			{"From(rowA).Concat([]interface{}{rowB})", fpgo.StreamForInterface.From(rowA).Concat([]interface{}{rowB}), 2},
+		}
+		for _, t := range cases {
+			c.Eval(1)
+			c.DistinctAdd(1)
+			bad := t.s.Len() != t.n || len(t.s.ToArray()) != t.n
+			for i := 0; !bad && i < t.n; i++ {
+				if _, isRow := t.s.Get(i).([]interface{}); !isRow {
+					bad = true
+				}
+			}
+			if bad {
+				c.Violationf("direct:interface{}:rows-as-elements", map[string]any{"case": t.name}, "interface{} stream whose elements are rows ([]interface{} values): %s has Len %d and holds %v, want %d rows", t.name, t.s.Len(), t.s.ToArray(), t.n)
+			}
+		}
+	}
 	c.Count("direct_probes.failing_callbacks_and_spread_arguments", 1)
 }
